@@ -2,7 +2,8 @@
 (* I->S binding for C03: every record is one diff computed by the real     *)
 (* ContentDiff (harness `text diff`); TLC judges it against DiffOK and     *)
 (* the determinism clause.  There is no reference alignment, hence no      *)
-(* divergence.                                                             *)
+(* divergence.  op "bigdiff" = the LARGE-INPUT class: inputs of thousands  *)
+(* of lines are judged on compact records (lengths, ranges, slice hashes). *)
 EXTENDS Diff, Json, IOUtils, TLC
 
 Rec == ndJsonDeserialize(IOEnv.TRACE)
@@ -19,6 +20,16 @@ Verdict(r) ==
        ELSE IF ~Alternates(r.h1) THEN "Alternates"
        ELSE IF ~ContentsAreSlices(r.inp, r.h1, r.c1) THEN "ContentsAreSlices"
        ELSE IF ~Reconstructs(r.inp, r.c1) THEN "Reconstructs"
+       ELSE IF r.h2 # r.h1 THEN "Deterministic"
+       ELSE IF "h3" \in DOMAIN r /\ r.h3 # r.h1 THEN "DeterministicAcrossProcesses"
+       ELSE "ok"
+  ELSE IF r.op = "bigdiff" THEN          \* LARGE-INPUT class: compact, hash-based records
+       IF Len(r.lens) = 0 THEN "harness:bad-record"
+       ELSE IF ~WellShaped(r.lens, r.h1) \/ (\E h \in 1..Len(r.h1) : Len(r.h1[h].x) # Len(r.lens)) THEN "WellShaped"
+       ELSE IF ~CoversLens(r.lens, r.h1) THEN "Covers"
+       ELSE IF ~MatchingHashEqual(r.h1) THEN "MatchingEqual"
+       ELSE IF ~NoEmptyHunk(r.lens, r.h1) THEN "NoEmptyHunk"
+       ELSE IF ~Alternates(r.h1) THEN "Alternates"
        ELSE IF r.h2 # r.h1 THEN "Deterministic"
        ELSE IF "h3" \in DOMAIN r /\ r.h3 # r.h1 THEN "DeterministicAcrossProcesses"
        ELSE "ok"
